@@ -19,6 +19,7 @@ import Driver.C16Lin
 import Driver.C16Mon
 import Driver.C17
 import Driver.C17Mon
+import Driver.C17Par
 import Driver.C18
 import Driver.C18Mon
 import Driver.C19
@@ -47,6 +48,7 @@ def suites : List (String × Driver.Suite) :=
   Driver.C16Mon.suites ++
   Driver.C17.suites ++
   Driver.C17Mon.suites ++
+  Driver.C17Par.suites ++
   Driver.C18.suites ++
   Driver.C18Mon.suites ++
   Driver.C19.suites ++
